@@ -41,7 +41,7 @@ def plan(tier):
 
 
 def n_tables(tier):
-    return 80 if tier == 'thorough' else 14
+    return 80 if tier == 'thorough' else 12
 
 
 def gen_window_op(rng, timed):
